@@ -54,7 +54,9 @@ Definition c10_tyenv : tyenv := {|
     ("DialoutInternalClientMessage", schema_DialoutInternalClientMessage);
     ("DialoutStatusInternalClientMessage", schema_DialoutStatusInternalClientMessage);
     ("Error", schema_Error);
-    ("TransientDataClientMessage", schema_TransientDataClientMessage)];
+    ("TransientDataClientMessage", schema_TransientDataClientMessage);
+    ("MessageServerMessageData", schema_MessageServerMessageData);
+    ("MessageServerMessageDataChat", schema_MessageServerMessageDataChat)];
   (* named non-struct types (hand-written; a wrong entry shows up as a
      correspondence mismatch on the wrong-kind cases) *)
   te_aliases := [("DialoutStatus", "string")];
@@ -72,6 +74,7 @@ Definition ty_v2params : gty := resolved "HelloV2AuthParams".
 Definition ty_fedparams : gty := resolved "FederationAuthParams".
 Definition ty_intparams : gty := resolved "ClientTypeInternalAuthParams".
 Definition ty_mcudata : gty := resolved "MessageClientMessageData".
+Definition ty_srvdata : gty := resolved "MessageServerMessageData".
 
 (* ---- input: one websocket frame ------------------------------------------------------------ *)
 Inductive input :=
@@ -95,7 +98,14 @@ Record session_state := {
   ss_federated : bool;         (* the session has a FederationClient (it joined a federated room) *)
   ss_pending : list string;    (* message ids with a response handler installed by startDialout *)
   ss_mcu : bool;               (* the hub has a media server (Hub.mcu != nil) *)
-  ss_inroom : bool             (* the session is in a room *)
+  ss_inroom : bool;            (* the session is in a room *)
+  (* Sessions of the sender's backend that are known to this hub but have no connection at the
+     moment (the connection was interrupted, the session is kept to be resumed): what is sent
+     to them goes through ClientSession.storePendingMessage, which looks into the payload. *)
+  ss_offline : list string;        (* their public session ids *)
+  ss_offline_users : list string;  (* user ids (other than the sender's) that have such a session *)
+  ss_offline_room : bool;          (* the sender's room has such a member *)
+  ss_offline_call : bool           (* ... that is in the call *)
 }.
 
 (* ---- outcome ---------------------------------------------------------------------------------- *)
@@ -128,6 +138,7 @@ Inductive call :=
 | CInternal (ty : string) (sub : gval)                                                (* processInternalMsg, switch on the type; sub = *msg.<Sub> (for "dialout"/"status" the status object is dereferenced as well) *)
 | CResponse (id : string) (dialout : gval)                                            (* the response handler of a pending dialout took message.Internal.Dialout *)
 | CTransient (ty key : string) (value : option json) (ttl : Z)                        (* processTransientMsg, after the room check *)
+| CStore (refresh : bool)                                                             (* the message was handed to a session without connection: storePendingMessage, with what IsChatRefresh said *)
 | CBye                                                                                (* processByeMsg *)
 | CProxy (ty : string).                                                               (* FederationClient.ProxyMessage: forwarded to the remote server *)
 
@@ -157,6 +168,7 @@ Inductive cres := COk (p : parsed) | CErr (c : errcode).
 
 Definition eqs (a b : string) : bool := String.eqb a b.
 Definition sfld (f : string) (v : gval) : string := as_str (fld f v).
+Definition is_nil (v : gval) : bool := match v with GNil => true | _ => false end.
 
 (* encoding/json validates the text before it calls the (easyjson) UnmarshalJSON of
    the target and refuses nesting deeper than 10000 *)
@@ -430,6 +442,54 @@ Section WithOracles.
       end
     else None.
 
+  Definition mem (s : string) (l : list string) : bool := existsb (eqs s) l.
+
+  (* Does what is sent to this recipient reach a session without connection? *)
+  Definition reaches_offline (st : session_state) (rtype sid uid : string) : bool :=
+    if eqs rtype "session" then mem sid (ss_offline st)
+    else if eqs rtype "user" then mem uid (ss_offline_users st)
+    else if eqs rtype "room" then ss_inroom st && ss_offline_room st
+    else if eqs rtype "call" then ss_inroom st && ss_offline_call st
+    else false.
+
+  (* ServerMessage.IsChatRefresh on a "message" with this payload (called by storePendingMessage):
+     None = nil dereference.  json.Unmarshal into MessageServerMessageData; an error, another type
+     than "chat" or no chat object: false; else data.Chat.Refresh. *)
+  Definition is_chat_refresh (data : json) : option bool :=
+    match std_unmarshal ty_srvdata data with
+    | Err _ => Some false
+    | Ok d =>
+        if negb (eqs (sfld "Type" d) "chat") || is_nil (fld "Chat" d) then Some false
+        else match deref (fld "Chat" d) with
+             | None => None                               (* data.Chat.Refresh *)
+             | Some c => Some (as_bool (fld "Refresh" c))
+             end
+    end.
+
+  (* payloads the hub hands to the media server (or turns into a "sendoffer" request) instead of
+     forwarding them to the recipient; d = the payload decoded and validated, where the code did that *)
+  Definition mcu_consumes (rtype : string) (d : gval) : bool :=
+    let t := sfld "Type" d in
+    (eqs rtype "session" &&
+     (eqs t "requestoffer" || eqs t "offer" || eqs t "answer" || eqs t "endOfCandidates" || eqs t "selectStream" || eqs t "candidate"))
+    || eqs t "sendoffer".
+
+  (* A session of this hub is handed the message directly; users, rooms and calls are reached
+     through the event bus: the message travels as JSON text inside
+     {"type":"message","message":{"type":..,"message":{"sender":..,"data":<data>}}} and is parsed
+     again by encoding/json - beyond its nesting limit the publication is lost. *)
+  Definition bus_ok (data : json) : bool := Nat.leb (json_depth data + 3) max_nesting.
+  Definition delivered (rtype : string) (data : json) : bool := eqs rtype "session" || bus_ok data.
+
+  (* the message is forwarded; where a recipient has no connection it is stored for the resume *)
+  Definition forward (st : session_state) (rtype sid uid : string) (data : json) (c : call) : verdict :=
+    if reaches_offline st rtype sid uid && delivered rtype data then
+      match is_chat_refresh data with
+      | None => VPanic
+      | Some r => VDispatch [c; CStore r]
+      end
+    else VDispatch [c].
+
   Definition enter_message (st : session_state) (m : gval) : verdict :=
     match deref (fld "Message" m) with
     | None => VPanic                                      (* msg.Recipient.Type *)
@@ -437,7 +497,8 @@ Section WithOracles.
         let rc := fld "Recipient" mm in
         let ty := sfld "Type" rc in
         let data := match as_raw (fld "Data" mm) with Some j => j | None => JNull end in
-        let plain := VDispatch [CMessage ty (sfld "SessionId" rc) (sfld "UserId" rc) data None] in
+        let plain := forward st ty (sfld "SessionId" rc) (sfld "UserId" rc) data
+                       (CMessage ty (sfld "SessionId" rc) (sfld "UserId" rc) data None) in
         let looks_at_payload :=
           ss_mcu st && (eqs ty "session" || ((eqs ty "room" || eqs ty "call") && ss_inroom st)) in
         if looks_at_payload then
@@ -446,19 +507,25 @@ Section WithOracles.
           | Ok d =>
               match check_mcudata d with
               | Some c => VError c (msg_id m)
-              | None => VDispatch [CMessage ty (sfld "SessionId" rc) (sfld "UserId" rc) data (Some d)]
+              | None =>
+                  let c := CMessage ty (sfld "SessionId" rc) (sfld "UserId" rc) data (Some d) in
+                  if mcu_consumes ty d then VDispatch [c]
+                  else forward st ty (sfld "SessionId" rc) (sfld "UserId" rc) data c
               end
           end
         else plain
     end.
 
-  Definition enter_control (m : gval) : verdict :=
+  (* IsChatRefresh of a "control" message is false without looking at the payload *)
+  Definition enter_control (st : session_state) (m : gval) : verdict :=
     match deref (fld "Control" m) with
     | None => VPanic                                      (* msg.Recipient.Type (after the permission check, which does not look at msg) *)
     | Some c =>
         let rc := fld "Recipient" c in
-        VDispatch [CControl (sfld "Type" rc) (sfld "SessionId" rc) (sfld "UserId" rc)
-                     (match as_raw (fld "Data" c) with Some j => j | None => JNull end)]
+        let data := match as_raw (fld "Data" c) with Some j => j | None => JNull end in
+        let call := CControl (sfld "Type" rc) (sfld "SessionId" rc) (sfld "UserId" rc) data in
+        if reaches_offline st (sfld "Type" rc) (sfld "SessionId" rc) (sfld "UserId" rc) && delivered (sfld "Type" rc) data
+        then VDispatch [call; CStore false] else VDispatch [call]
     end.
 
   (* the response handler installed by startDialout; None = nil dereference,
@@ -505,8 +572,6 @@ Section WithOracles.
         else match pre with [] => VIgnored | _ => VDispatch pre end
     end.
 
-  Definition mem (s : string) (l : list string) : bool := existsb (eqs s) l.
-
   Definition enter_internal (fixed : bool) (st : session_state) (m : gval) : verdict :=
     match ss_kind st with
     | SInternal =>
@@ -549,7 +614,7 @@ Section WithOracles.
         if negb local && ss_federated st then enter_proxy m
         else if eqs ty "room" then enter_room m p
         else if eqs ty "message" then enter_message st m
-        else if eqs ty "control" then enter_control m
+        else if eqs ty "control" then enter_control st m
         else if eqs ty "internal" then enter_internal fixed st m
         else if eqs ty "transient" then enter_transient st m
         else if eqs ty "bye" then VDispatch [CBye]
